@@ -111,7 +111,7 @@ func TestVerifReplay(t *testing.T) {
 		}
 		// markers on a few bases of this arity
 		for _, a := range parsed {
-			if SKIPYEAR(a.t) || len(parsed) > 40 && (a.t[0]+a.t[len(a.t)-1])%3 != 0 {
+			if SKIPYEAR(a.t) || !ALLBASES && len(parsed) > 40 && (a.t[0]+a.t[len(a.t)-1])%3 != 0 {
 				continue
 			}
 			for _, m := range pre {
@@ -194,6 +194,10 @@ func (n numOrderEco) source() string {
 		mc = 5
 	}
 	src = strings.ReplaceAll(src, "MAXCOMPS", fmt.Sprint(mc))
+	src = strings.ReplaceAll(src, "ALLBASES", fmt.Sprint(harnessThorough))
+	if harnessThorough {
+		src = strings.Replace(src, "bases := [][]int{{1, 2, 3, 4, 5}, {0, 0, 0, 0, 0}, {10, 9, 11, 2, 1}}", "bases := [][]int{{1, 2, 3, 4, 5}, {0, 0, 0, 0, 0}, {10, 9, 11, 2, 1}, {2147483647, 65535, 999, 100, 99}, {9, 9, 9, 9, 9}}", 1)
+	}
 	return strings.ReplaceAll(src, "SKIPYEAR", "("+skip+")")
 }
 
